@@ -58,7 +58,10 @@ where
 
     /// Inserts the `value` into the data structure.
     pub fn insert(&mut self, value: Value) {
-        self.reps.insert(&value.clone(), value);
+        // Inserting a value that is already present must not detach it from its set
+        if self.reps.get(&value).is_none() {
+            self.reps.insert(&value.clone(), value);
+        }
     }
 
     /// Finds the root element corresponding to the query `value`.
@@ -88,6 +91,10 @@ where
     pub fn union(&mut self, v1: &Value, v2: &Value) {
         let v1 = self.find(v1);
         let v2 = self.find(v2);
+        if v1 == v2 {
+            // Already in the same set; combining the data with itself would duplicate it
+            return;
+        }
         let v1_val = self.data.get(&v1).cloned().unwrap_or(Data::identity());
         let v2_val = self.data.remove(&v2).unwrap_or(Data::identity());
         self.data.insert(&v1, v1_val.combine(v2_val));
